@@ -125,6 +125,7 @@ type fontEntry struct {
 	rich     richness // layout richness (set by pickFonts; zero for replayed fonts)
 	upstream [][]rune // texts of the upstream expectation files for this font
 	nglyphs  int
+	hbFont   *harfbuzz.Font // cached Font for cases without variations
 }
 
 var (
@@ -358,15 +359,25 @@ func shapePort(fe *fontEntry, c *Case) (res portResult, perr error) {
 			perr = &panicError{val: fmt.Sprint(r), stack: panicSite(debug.Stack())}
 		}
 	}()
-	face := font.NewFace(fe.face.Font)
-	if len(c.Vars) > 0 {
+	// A harfbuzz.Font only depends on the font.Font (documented as suitable for caching): without
+	// variations one Font per corpus face is reused (building the lookup accelerators of a rich
+	// font for every case dominates the run time otherwise); with variations the case gets its
+	// own Face (own coordinates) and Font. The Buffer is always fresh.
+	var hf *harfbuzz.Font
+	if len(c.Vars) == 0 {
+		if fe.hbFont == nil {
+			fe.hbFont = harfbuzz.NewFont(font.NewFace(fe.face.Font))
+		}
+		hf = fe.hbFont
+	} else {
+		face := font.NewFace(fe.face.Font)
 		vs := make([]font.Variation, len(c.Vars))
 		for i, v := range c.Vars {
 			vs[i] = font.Variation{Tag: ot.MustNewTag(v.Tag), Value: v.Value}
 		}
 		face.SetVariations(vs)
+		hf = harfbuzz.NewFont(face)
 	}
-	hf := harfbuzz.NewFont(face)
 	buf := harfbuzz.NewBuffer()
 	buf.AddRunes(c.runes(), c.Offset, c.Length)
 	buf.Props.Direction = harfbuzz.Direction(c.Dir)
